@@ -139,6 +139,28 @@ func c20Random(c *core.Ctx) {
 			dry[i] = c.R.Range(-0.01, 0.01) // around the branch point
 		}
 	}
+	// value patterns over consecutive steps: the dry bulb (or the humidity) held bit-identical for a few steps while the
+	// other variable jumps around, both held, and a value returning after one step
+	for k := c.R.IntRange(2, 8); k > 0; k-- {
+		t0 := c.R.Intn(n - 12)
+		w := c.R.IntRange(3, 10)
+		switch c.R.Intn(4) {
+		case 0:
+			for t := t0 + 1; t < t0+w; t++ {
+				dry[t] = dry[t0]
+			}
+		case 1:
+			for t := t0 + 1; t < t0+w; t++ {
+				hum[t] = hum[t0]
+			}
+		case 2:
+			for t := t0 + 1; t < t0+w; t++ {
+				dry[t], hum[t] = dry[t0], hum[t0]
+			}
+		default:
+			dry[t0+2], hum[t0+2] = dry[t0], hum[t0]
+		}
+	}
 	c.Begin(map[string]interface{}{"model": "ClimateVariables", "elevation": elev, "dryBulb": dry, "humidity": hum})
 	c.Class(fmt.Sprintf("random/%d", int(elev/1000)))
 	out, err := runClimate(elev, dry, hum)
